@@ -200,7 +200,7 @@ CHECKS['C06'] = dict(
          'the echoed values fit their slots (EchoFits) - from ack997_is_derivation (the output is a derivation of the 997 skeleton) and '
          'ack997_values_admissible, with the map-side hypotheses (shape997, ackDefsOk, ackKeysOk, isaDefOk) regenerated from the shipped 997 '
          'and control maps and discharged by decide +kernel on every run (tools/xack.py); the 999 counterpart stays partial (both 999 maps '
-         'fail WFMap: the listed CTX finding). Tied to /repo by re-reading every real '
+         'fail WFMap: the listed CTX finding); ack997_ak402_not_echo: AK402 as written is empty or 1-4 ASCII digits (the repair this proof led to). Tied to /repo by re-reading every real '
          'acknowledgement with the real reader (no envelope error, recount) and re-validating it with the real validator, incl. inputs with '
          'other delimiters and data containing ~ * : ^.',
     note=COMMON_NOTE + ' Echo of delimiter characters is a listed finding.',
